@@ -1,6 +1,7 @@
 package main
 
 import (
+	"fmt"
 	"go/token"
 	"go/types"
 	"sort"
@@ -309,12 +310,15 @@ func (g *Gen) lookupType(name string) types.Type {
 }
 
 // argsReach: frame of a body-less callee given its argument values.
-func (g *Gen) argsReach(args []ssa.Value, recv ssa.Value) *Frame {
+func (g *Gen) argsReach(args []ssa.Value, recv ssa.Value, forCallers bool) *Frame {
 	fr := newFrame()
 	add := func(v ssa.Value) {
 		t := v.Type()
 		if !pointerLike(t) {
 			return
+		}
+		if forCallers && g.isFreshValue(v, 0) {
+			return // writes into memory allocated by this function are invisible to its callers
 		}
 		if _, isIface := t.Underlying().(*types.Interface); isIface {
 			if harmlessIface(t) {
@@ -552,7 +556,7 @@ func (g *Gen) freeVarDynTypes(fv *ssa.FreeVar, depth int) []types.Type {
 }
 
 // resolveDeps: replace dependencies on callee parameters by the reach of the actual arguments.
-func (g *Gen) resolveDeps(fr *Frame, callee *ssa.Function, args []ssa.Value, invoke bool) {
+func (g *Gen) resolveDeps(fr *Frame, callee *ssa.Function, args []ssa.Value, invoke bool, forCallers bool) {
 	for p := range fr.paramDeps {
 		if p.Parent() != callee {
 			continue
@@ -572,7 +576,7 @@ func (g *Gen) resolveDeps(fr *Frame, callee *ssa.Function, args []ssa.Value, inv
 			fr.why = "unresolved parameter dependency"
 			continue
 		}
-		fr.union(g.argsReach([]ssa.Value{args[idx]}, nil))
+		fr.union(g.argsReach([]ssa.Value{args[idx]}, nil, forCallers))
 	}
 }
 
@@ -605,4 +609,206 @@ func (g *Gen) closeDeps(fr *Frame) *Frame {
 		}
 	}
 	return out
+}
+
+// isFreshValue: v (pointer or interface holding a pointer) syntactically denotes memory allocated during this call.
+func (g *Gen) isFreshValue(v ssa.Value, depth int) bool {
+	if depth > 10 {
+		return false
+	}
+	switch x := v.(type) {
+	case *ssa.Alloc:
+		return true
+	case *ssa.Const:
+		return x.Value == nil
+	case *ssa.MakeInterface:
+		return g.isFreshValue(x.X, depth+1)
+	case *ssa.ChangeInterface:
+		return g.isFreshValue(x.X, depth+1)
+	case *ssa.ChangeType:
+		return g.isFreshValue(x.X, depth+1)
+	case *ssa.TypeAssert:
+		return g.isFreshValue(x.X, depth+1)
+	case *ssa.Extract:
+		if c, ok := x.Tuple.(*ssa.TypeAssert); ok && x.Index == 0 {
+			return g.isFreshValue(c.X, depth+1)
+		}
+		return false
+	case *ssa.Phi:
+		for _, e := range x.Edges {
+			if !g.isFreshValue(e, depth+1) {
+				return false
+			}
+		}
+		return true
+	case *ssa.Call:
+		c := x.Common()
+		if c.IsInvoke() {
+			return strings.HasPrefix(c.Method.Name(), "DeepCopy") && c.Method.Name() != "DeepCopyInto"
+		}
+		if f := c.StaticCallee(); f != nil {
+			if strings.HasPrefix(f.Name(), "DeepCopy") && f.Name() != "DeepCopyInto" {
+				return true
+			}
+			return g.freshResult(f, depth+1)
+		}
+	case *ssa.UnOp:
+		if x.Op == token.MUL {
+			if a, ok := x.X.(*ssa.Alloc); ok && !a.Heap {
+				n := 0
+				for _, r := range *a.Referrers() {
+					if s, ok := r.(*ssa.Store); ok && s.Addr == a {
+						n++
+						if !g.isFreshValue(s.Val, depth+1) {
+							return false
+						}
+					}
+				}
+				return n > 0
+			}
+		}
+	}
+	return false
+}
+
+// freshResult: every return of in-module function f yields freshly allocated memory (first result).
+func (g *Gen) freshResult(f *ssa.Function, depth int) bool {
+	if len(f.Blocks) == 0 {
+		return false
+	}
+	if v, ok := g.freshResCache[f]; ok {
+		return v
+	}
+	g.freshResCache[f] = false // recursion guard
+	ok := true
+	n := 0
+	for _, b := range f.Blocks {
+		for _, in := range b.Instrs {
+			r, isRet := in.(*ssa.Return)
+			if !isRet || len(r.Results) == 0 {
+				continue
+			}
+			n++
+			if c, isC := r.Results[0].(*ssa.Const); isC && c.Value == nil {
+				continue
+			}
+			if !g.isFreshValue(r.Results[0], depth+1) {
+				ok = false
+			}
+		}
+	}
+	g.freshResCache[f] = ok && n > 0
+	return ok && n > 0
+}
+
+// ---------- allocation typing (Go memory safety): which allocations can a *T point into ----------
+
+// containersOf: named struct types that contain T by value (transitively), including T itself.
+func (g *Gen) containersOf(t types.Type) []types.Type {
+	if g.containerIdx == nil {
+		g.containerIdx = map[string][]types.Type{}
+		direct := map[string][]types.Type{}
+		seenPkg := map[string]bool{}
+		var visit func(p *types.Package)
+		visit = func(p *types.Package) {
+			if p == nil || seenPkg[p.Path()] {
+				return
+			}
+			seenPkg[p.Path()] = true
+			sc := p.Scope()
+			for _, n := range sc.Names() {
+				tn, ok := sc.Lookup(n).(*types.TypeName)
+				if !ok || tn.IsAlias() {
+					continue
+				}
+				nt, ok := tn.Type().(*types.Named)
+				if !ok || nt.TypeParams().Len() > 0 {
+					continue
+				}
+				st, ok := nt.Underlying().(*types.Struct)
+				if !ok {
+					continue
+				}
+				var addField func(ft types.Type)
+				addField = func(ft types.Type) {
+					ft = types.Unalias(ft)
+					switch u := ft.(type) {
+					case *types.Named:
+						if _, isS := u.Underlying().(*types.Struct); isS {
+							k := types.TypeString(u, nil)
+							direct[k] = append(direct[k], nt)
+						}
+					case *types.Array:
+						addField(u.Elem())
+					case *types.Struct:
+						for i := 0; i < u.NumFields(); i++ {
+							addField(u.Field(i).Type())
+						}
+					}
+				}
+				for i := 0; i < st.NumFields(); i++ {
+					addField(st.Field(i).Type())
+				}
+			}
+			for _, imp := range p.Imports() {
+				visit(imp)
+			}
+		}
+		for _, p := range g.pkgs {
+			visit(p.Types)
+		}
+		g.directContainers = direct
+	}
+	key := types.TypeString(t, nil)
+	if r, ok := g.containerIdx[key]; ok {
+		return r
+	}
+	seen := map[string]bool{key: true}
+	out := []types.Type{t}
+	work := []string{key}
+	for len(work) > 0 && len(out) <= 12 {
+		k := work[0]
+		work = work[1:]
+		for _, c := range g.directContainers[k] {
+			ck := types.TypeString(c, nil)
+			if !seen[ck] {
+				seen[ck] = true
+				out = append(out, c)
+				work = append(work, ck)
+			}
+		}
+	}
+	g.containerIdx[key] = out
+	return out
+}
+
+// rootTypeConstraint: constraint on the allocation that non-nil pointer term c of pointee type t points into ("" = none).
+func (g *Gen) rootTypeConstraint(c string, t types.Type) string {
+	t = types.Unalias(t)
+	nt, ok := t.(*types.Named)
+	if !ok {
+		return ""
+	}
+	if _, isS := nt.Underlying().(*types.Struct); !isS {
+		return ""
+	}
+	if _, op := opaqueSort(t); op {
+		return ""
+	}
+	cs := g.containersOf(nt)
+	if len(cs) > 8 {
+		return ""
+	}
+	var alts []string
+	for _, r := range cs {
+		alt := fmt.Sprintf("(= (rootTy (rbase %s)) %d)", c, g.ti.typeID(r))
+		if r == types.Type(nt) {
+			sz := g.ti.sizeOf(nt)
+			if sz > 1 {
+				alt = fmt.Sprintf("(and %s (= (mod (roff %s) %d) 0))", alt, c, sz)
+			}
+		}
+		alts = append(alts, alt)
+	}
+	return or(alts...)
 }
